@@ -19,7 +19,12 @@ fn do_res_raw(ctx: &mut Ctx, f: &[BigInt], g: &[BigInt]) {
 }
 /// process level: `rust-number-theory <config>` with to_find = resultant (lists may end in zeros)
 fn do_cli_res(ctx: &mut Ctx, f: &[BigInt], g: &[BigInt]) {
-    let cfg = format!("to_find = ['resultant']\n[input]\npolynomials = [{}, {}]\n", toml_list(f), toml_list(g));
+    // zero polynomials are written as empty lists: no trailing zeros there (variant 0, 3, 4 only)
+    let mut v = variant_of(&[show_ints(f), show_ints(g)]);
+    if f.is_empty() || g.is_empty() {
+        v = match v { 1 | 2 => 0, 5 => 3, x => x };
+    }
+    let cfg = format!("to_find = ['resultant']\n[input]\npolynomials = {}\n", toml_polys(&[f, g], v));
     if let Some(out) = run_cli(&cfg) {
         let ans = if out.starts_with("panic") { out } else { json_field(&out, "resultant").unwrap_or_else(|| "noanswer".into()) };
         ctx.emit("cli.res", &[show_ints(f), show_ints(g)], ans);
